@@ -389,12 +389,21 @@ pub trait RollingValidFeature<T: IsNone>: Vec1View<T> {
         let mut sum2 = 0.;
         let mut sum3 = 0.;
         let mut n = 0;
+        // length of the run of identical most recent values: when it covers the window the
+        // spread is exactly zero, whatever rounding residue `var` carries
+        let mut last_v = f64::NAN;
+        let mut n_same = 0;
         self.rolling_apply(
             window,
             move |v_rm, v| {
                 if v.not_none() {
                     n += 1;
                     let v = v.unwrap().f64();
+                    if v == last_v {
+                        n_same += 1;
+                    } else {
+                        (last_v, n_same) = (v, 1);
+                    }
                     sum += v;
                     let v2 = v * v;
                     sum2 += v2;
@@ -405,7 +414,7 @@ pub trait RollingValidFeature<T: IsNone>: Vec1View<T> {
                     let mut var = sum2 / n_f64;
                     let mut mean = sum / n_f64;
                     var -= mean.powi(2);
-                    if var <= EPS {
+                    if var <= EPS || n_same >= n {
                         // 标准差为0， 则偏度为0
                         0.
                     } else {
@@ -466,12 +475,21 @@ pub trait RollingValidFeature<T: IsNone>: Vec1View<T> {
         let mut sum3 = 0.;
         let mut sum4 = 0.;
         let mut n = 0;
+        // length of the run of identical most recent values: when it covers the window the
+        // spread is exactly zero, whatever rounding residue `var` carries
+        let mut last_v = f64::NAN;
+        let mut n_same = 0;
         self.rolling_apply(
             window,
             move |v_rm, v| {
                 if v.not_none() {
                     n += 1;
                     let v = v.unwrap().f64();
+                    if v == last_v {
+                        n_same += 1;
+                    } else {
+                        (last_v, n_same) = (v, 1);
+                    }
                     sum += v;
                     let v2 = v * v;
                     sum2 += v2;
@@ -483,7 +501,7 @@ pub trait RollingValidFeature<T: IsNone>: Vec1View<T> {
                     let mut var = sum2 / n_f64;
                     let mean = sum / n_f64;
                     var -= mean.powi(2);
-                    if var <= EPS {
+                    if var <= EPS || n_same >= n {
                         // 标准差为0， 则峰度为0
                         0.
                     } else {
@@ -886,11 +904,20 @@ pub trait RollingFeature<T: Clone>: Vec1View<T> {
         let mut sum2 = 0.;
         let mut sum3 = 0.;
         let mut n = 0;
+        // length of the run of identical most recent values: when it covers the window the
+        // spread is exactly zero, whatever rounding residue `var` carries
+        let mut last_v = f64::NAN;
+        let mut n_same = 0;
         self.rolling_apply(
             window,
             move |v_rm, v| {
                 n += 1;
                 let v = v.f64();
+                if v == last_v {
+                    n_same += 1;
+                } else {
+                    (last_v, n_same) = (v, 1);
+                }
                 sum += v;
                 let v2 = v * v;
                 sum2 += v2;
@@ -901,7 +928,7 @@ pub trait RollingFeature<T: Clone>: Vec1View<T> {
                     let mut var = sum2 / n_f64;
                     let mut mean = sum / n_f64;
                     var -= mean.powi(2);
-                    if var <= EPS {
+                    if var <= EPS || n_same >= n {
                         // 标准差为0， 则偏度为0
                         0.
                     } else {
@@ -961,11 +988,20 @@ pub trait RollingFeature<T: Clone>: Vec1View<T> {
         let mut sum3 = 0.;
         let mut sum4 = 0.;
         let mut n = 0;
+        // length of the run of identical most recent values: when it covers the window the
+        // spread is exactly zero, whatever rounding residue `var` carries
+        let mut last_v = f64::NAN;
+        let mut n_same = 0;
         self.rolling_apply(
             window,
             move |v_rm, v| {
                 n += 1;
                 let v = v.f64();
+                if v == last_v {
+                    n_same += 1;
+                } else {
+                    (last_v, n_same) = (v, 1);
+                }
                 sum += v;
                 let v2 = v * v;
                 sum2 += v2;
@@ -977,7 +1013,7 @@ pub trait RollingFeature<T: Clone>: Vec1View<T> {
                     let mut var = sum2 / n_f64;
                     let mean = sum / n_f64;
                     var -= mean.powi(2);
-                    if var <= EPS {
+                    if var <= EPS || n_same >= n {
                         // 标准差为0， 则峰度为0
                         0.
                     } else {
